@@ -183,6 +183,10 @@ static void body(Ctx& C)
 #endif
       C.count("lexicon_lives");
       C.eval(hash_mix(seed, std::uint64_t(flavour)));
+#if VH_HAVE_ASAN
+      if (i < 3) C.sample(J().s("kind", "lexicon-life").n("seed", (long long)seed).n("flavour", flavour).n("live_heap_bytes_before", (long long)b0).n("live_heap_bytes_after_destruction", (long long)b1)
+                          .n("lsan_reported", leaked).n("factory_calls_so_far", T.factory_calls).n("strings_interned_so_far", T.strings).n("printed_bytes_so_far", T.printed_bytes).str(), 3);
+#endif
       // LeakSanitizer symbolises every block of every report: once the same defect has been witnessed on several lives
       // further lives only repeat it (and are slow); stop, the violation is already recorded
       if (C.total_viols >= 12 && i >= 3) { C.count("stopped_early_after_repeated_violations"); break; }
@@ -191,8 +195,6 @@ static void body(Ctx& C)
    C.count("printed_bytes", T.printed_bytes); C.count("extra_units_and_module_units", T.units); C.count("nested_regions", T.regions); C.count("program_steps", T.steps); C.count("strings_at_allocator_threshold_lengths", T.threshold);
    for (auto k : { "lexicon_lives", "factory_calls", "strings_interned", "string_pools_at_destruction", "printed_bytes", "extra_units_and_module_units", "nested_regions", "program_steps" }) C.need(k);
    if (!valgrind_mode) { C.need("byte_accounting_checks"); C.need("lsan_checks"); }
-   C.sample(J().s("kind", "lexicon-life").s("flavour", "sweep + generated program + strings over 3 pools + oversize words").str());
-   C.sample(J().s("kind", "lexicon-life").s("flavour", "600 compound types, 300 nested regions, 400 fields, 3000 enumerators, 500 parameters, substitution").str());
 }
 
 int main(int argc, char** argv) { return guarded_main(argc, argv, body); }
